@@ -91,3 +91,29 @@ Definition eml_case (T : C07.Model.tables)
   pairs_eqb to to' && pairs_eqb (eml_filter cc) cc'
   && str_eqb (strip (eml_body tp)) plain' && str_eqb (eml_body th) html'
   && triples_eqb (map (fun a => eml_attachment T (mkMpAtt (fst a) (snd a))) atts) atts'.
+
+(* a whole message of several attachments: the model's iterate_supported_attachments with a marker oracle
+   (every extractor run yields its own identity and the file name it was given), against the sequence of
+   (extractor, file name) runs observed on the implementation.  None = the iteration raised. *)
+Fixpoint runs_eqb (a b : list (C07.Model.extractor * str)) : bool :=
+  match a, b with
+  | [], [] => true
+  | ((m, f), n) :: a', ((m', f'), n') :: b' => str_eqb m m' && str_eqb f f' && str_eqb n n' && runs_eqb a' b'
+  | _, _ => false
+  end.
+
+Definition marker_run (e : C07.Model.extractor) (data name : str) : list (C07.Model.extractor * str) * fin := ([(e, name)], FDone).
+
+Definition att_list_case (T : C07.Model.tables)
+    (c : list (str * str) * list (str * option str) * list (str * str * bool) * option (list (C07.Model.extractor * str))) : bool :=
+  let '(lt, mt, atts, expected) := c in
+  let l := map (fun a => let '(n, m, f) := a in mkAtt n m [] f) atts in
+  let '(rs, o) := iterate_supported_attachments T (lower_of lt) (mime_of mt) _ marker_run l in
+  match o, expected with
+  | Completed, Some ex =>
+      runs_eqb rs ex
+      (* C16_attachments_independent on this input: the whole = the concatenation of the parts *)
+      && runs_eqb rs (List.concat (map (contribution T (lower_of lt) (mime_of mt) _ marker_run) l))
+  | RaisedNotSupported, None => true
+  | _, _ => false
+  end.
